@@ -120,6 +120,22 @@ def fill_element_ok(cfg, raw_elem_bytes):
     return (v >> 52) & 0x7FF == 0x7FF and (v & ((1 << 52) - 1)) != 0
 
 
+def _first_bad_fill(cfg, raw):
+    """Index of the first element of raw (stored byte order) that is not the documented fill, or None."""
+    sz = cfg["size"]
+    v = np.frombuffer(raw, dtype=np.dtype("%su%d" % (cfg["order"], sz))).astype(np.uint64)
+    if cfg["kind"] == "u":
+        ok = v == 0
+    elif cfg["kind"] == "i":
+        ok = v == np.uint64(1 << (8 * sz - 1))
+    elif sz == 4:
+        ok = (((v >> np.uint64(23)) & np.uint64(0xFF)) == np.uint64(0xFF)) & ((v & np.uint64(0x7FFFFF)) != 0)
+    else:
+        ok = (((v >> np.uint64(52)) & np.uint64(0x7FF)) == np.uint64(0x7FF)) & ((v & np.uint64((1 << 52) - 1)) != 0)
+    bad = np.nonzero(~ok)[0]
+    return int(bad[0]) if len(bad) else None
+
+
 # ---------------------------------------------------------------- layout
 def ceil_div(a, b):
     return -((-a) // b)
@@ -394,8 +410,11 @@ def compare_block(cfg, exp, got_start, got_arr):
         if got[a:bnd] != buf[a:bnd]:
             i = next(i for i in range(a, bnd) if got[i] != buf[i])
             return "block %d value mismatch at sample %d" % (s, s + i // nb)
-        for off in range((f0 - s) * nb, (f1 - s + 1) * nb, sz):
-            if not fill_element_ok(cfg, got[off:off + sz]):
+        lo_b, hi_b = (f0 - s) * nb, (f1 - s + 1) * nb
+        if hi_b > lo_b:
+            bad = _first_bad_fill(cfg, got[lo_b:hi_b])
+            if bad is not None:
+                off = lo_b + bad * sz
                 return "block %d fill slot %d holds %s, not the documented fill" % (
                     s, s + off // nb, got[off:off + sz].hex())
         cur = f1 + 1
